@@ -356,7 +356,39 @@ def r8_never_clone_is_enforced_for_every_type(ctx):
     ctx.floor('C04.R8', 'obligations on the cloning checkers', n, 4)
 
 
+COMPOSITE_TYPES = ('Path', 'TypeAlias', 'Tuple', 'Array')
+
+
+def r9_no_composite_type_is_copy_by_variant(ctx):
+    from ..tables import enum_switches, switch_edges
+    ctx.rule('C04.R9', 'P5 on the match over `Type` in `runtime_singletons_can_be_cloned_if_needed`: the owned inputs that are waved through without looking at the '
+             'cloning policy are the variants that are Copy by construction (scalars, shared references, pointers). A composite type - Path, TypeAlias, Tuple, '
+             'Array - is Copy only if its parts are, so none of them shares the arm of `ScalarPrimitive`: an array of a non-Copy type (`[Pool; 2]`) registered '
+             'never_clone would otherwise be cloned out of the application state on every request without a diagnostic.')
+    item = PX + 'analyses::application_state::cloning::runtime_singletons_can_be_cloned_if_needed'
+    bodies = [b for b in ctx.fb.bodies_of_item('pavexc', item) if not b.is_promoted]
+    if not ctx.need('C04.R9', 'runtime_singletons_can_be_cloned_if_needed', bodies):
+        return
+    n = 0
+    for b in bodies:
+        for bb, t in enum_switches(b):
+            if strip_generics(t['enum']) != 'rustdoc_ir::Type':
+                continue
+            e = switch_edges(t)
+            if 'ScalarPrimitive' not in e:
+                continue
+            if not (set(b.reachable([e['ScalarPrimitive']])) & set(b.return_blocks())):
+                continue            # `let Type::Path(x) = .. else { unreachable!() }`: the other arm does not go on
+            n += 1
+            skipped = sorted(v for v in e if e[v] == e['ScalarPrimitive'])
+            bad = [v for v in skipped if v in COMPOSITE_TYPES]
+            ctx.ob('C04.R9', 'copy-by-variant|%s' % '+'.join(skipped), not bad, b.loc(bb),
+                   'variants that share the arm of ScalarPrimitive: %s%s' % (skipped, '' if not bad else ' — composite: %s' % bad))
+    ctx.floor('C04.R9', 'matches over Type in the singleton cloning check', n, 1)
+
+
 def check(ctx):
+    r9_no_composite_type_is_copy_by_variant(ctx)
     r8_never_clone_is_enforced_for_every_type(ctx)
     r7_generic_matching_is_faithful(ctx)
     r1_lookup_direction(ctx)
